@@ -290,19 +290,27 @@ def check_validation_formulas(ctx, F, tag):
     expected = {}
     rb = F.body("bit_vector::rank_support::RankSupport::new")
     sb = F.body("bit_vector::select_support::SelectSupport::<T>::new")
-    def builder_count(b, varname):
-        for i, l in enumerate(b.locals):
-            if l["name"] == varname:
-                t = core(b.term_of_local(i))
+    def builder_count(b, constname):
+        """The (quantity, divisor) of the first ceil-division by the named size constant in the builder: (q + C - 1) / C."""
+        for bi, si, st in b.stmts():
+            if st["s"] == "assign" and st["rv"]["r"] == "bin" and st["rv"]["op"] == "Div":
+                t = core(b.term_of_rvalue(st["rv"]))
                 env_ = {}
-                if m(Bin("Div", Bin("Sub", Bin("Add", Bind("q"), Bind("c")), Const(1)), Bind("c2")), t, env_) and core(env_["c"]) == core(env_["c2"]):
+                if m(Bin("Div", Bin("Sub", Bin("Add", Bind("q"), Bind("c")), Const(1)), Bind("c2")), t, env_) and core(env_["c"]) == core(env_["c2"]) and \
+                        core(env_["c"])[0] == "const" and len(core(env_["c"])) > 2 and core(env_["c"])[2].endswith(constname):
                     return env_["q"], env_["c"]
+                # or through the helper: bits::div_round_up(q, C)
+        for bi, t_ in b.calls():
+            if callee_name(t_) == "bits::div_round_up":
+                c_ = core(b.term_of_operand(t_["args"][1]))
+                if c_[0] == "const" and len(c_) > 2 and c_[2].endswith(constname):
+                    return b.term_of_operand(t_["args"][0]), c_
         return None, None
-    q, c = builder_count(rb, "blocks")
+    q, c = builder_count(rb, "::BLOCK_SIZE")
     if q is None:
         raise Undecided("RankSupport::new: block count formula not recognised")
     expected["rank"] = (abstract_quantity(F, q, [(("param", 0, rb.local_name(1)), "PARENT")]), core(c)[1])
-    q, c = builder_count(sb, "superblocks")
+    q, c = builder_count(sb, "::SUPERBLOCK_SIZE")
     if q is None:
         raise Undecided("SelectSupport::new: superblock count formula not recognised")
     for trans, key in (("bit_vector::Identity", "select"), ("bit_vector::Complement", "select_zero")):
